@@ -541,9 +541,10 @@ impl BuiltInFunction {
 
                 let start_i64 = start as i64;
                 let end_i64 = end as i64;
-                let length = end_i64 - start_i64;
+                // Huge bounds saturate to i64::MIN / i64::MAX, whose difference overflows i64
+                let length = end_i64 as i128 - start_i64 as i128;
 
-                if length > u32::MAX as i64 {
+                if length > u32::MAX as i128 {
                     return Err(RuntimeError::new(format!(
                         "list would be longer than the maximum length of {}",
                         u32::MAX
